@@ -49,8 +49,13 @@ RS
         awk '/^\[dependencies\]/{f=1;next} /^\[/{f=0} f' /repo/Cargo.toml
     } > "$SH/Cargo.toml"
 }
+# words of the library's own string literals, used by the generators as user strings
+make_dict() {
+    python3 "$ROOT/scripts/make_dict.py" /repo "$ROOT/target/dict.json" 2>/dev/null || echo '[]' > "$ROOT/target/dict.json"
+}
 build() {
     make_shadow
+    make_dict
     # first with the concurrent pass (needs the rewritten copy to compile and CompiledExpression to be Send + Sync)
     if (cd "$ROOT/sim" && cargo build --release --offline --features shuttled >"$ROOT/target.build.log" 2>&1); then return 0; fi
     if grep -q "lipe-find-parser-shuttled\|lipe_find_parser_shuttled\|c20conc" "$ROOT/target.build.log"; then
@@ -65,6 +70,7 @@ build() {
 }
 build_debug() {
     make_shadow
+    make_dict
     if (cd "$ROOT/sim" && cargo build --offline --features shuttled >"$ROOT/target.build.log" 2>&1); then return 0; fi
     if ! (cd "$ROOT/sim" && cargo build --offline >"$ROOT/target.build.log" 2>&1); then
         echo "harness error: dev-profile build of fpsim against /repo failed (see $ROOT/target.build.log)" >&2
